@@ -84,6 +84,9 @@ func driveC17(t *testing.T, out *vEmitter) {
 			{id: "uni", path: "^/caf\u00e9/(.*)$", rewrite: "/c/$1"},
 			{id: "docs", path: "^/docs/(.*)$", rewrite: "/$1", files: []string{"plain.txt", "release notes.txt", "r\u00e9sum\u00e9.txt", "a+b.txt", "semi;colon.txt"}},
 			{id: "files", path: "/files/", files: []string{"plain.txt", "release notes.txt", "r\u00e9sum\u00e9.txt", "a+b.txt"}}},
+		// rewrite rules that overlap, the longer pattern sorting BELOW the shorter one as a string ('(' < 'a', 'A' < 'a')
+		{{id: "root", path: "/"}, {id: "app", path: "^/app/(.*)$", rewrite: "/$1"}, {id: "assets", path: "^/(app|admin)/assets/(.*)$", rewrite: "/static/$1/$2"},
+			{id: "zz", path: "^/z", rewrite: "/short-z"}, {id: "zlong", path: "^/Zebra|^/zebra/stripes/(.*)$", rewrite: "/long-z"}},
 	}
 	paths := []string{"/", "/x", "/api", "/api/", "/api/users", "/api/v2", "/api/v2/", "/api/v2/items?q=1", "/api/v2/special/1", "/apix", "/exact", "/exact/", "/exact/x",
 		"/api/x%2Fy", "/api/v2/a%20b", "/api/%2e%2e/x", "/api/a+b", "/api/c;d=1", "/api/%C3%A9", "/api/é", "/legacy/one/two", "/legacy/", "/legacy/my%20file.txt", "/legacy/caf%C3%A9/x", "/legacy/a%2Fb", "/q/a%20b?orig=1", "/lx%20y", "/l", "/lx/y", "/q/z?orig=1&x=0",
@@ -94,6 +97,7 @@ func driveC17(t *testing.T, out *vEmitter) {
 		// an encoded slash sitting exactly on the boundary of a configured path: with raw-path proxying the choice is made on the path as sent
 		"/a/b%2Fx", "/a%2Fb/x", "/a/b%2Fc", "/a%2Fb%2Fc", "/a/b%2fc/", "/api%2Fv2/x", "/api/v2%2Fitems", "/exact%2F", "/ab%2F",
 // re-spellings of the proxy's own probe paths: only the literal /ping and /ready are the proxy's, these belong to the upstream
+		"/app/assets/logo.png?v=1", "/admin/assets/x.css", "/app/other", "/zebra/stripes/7", "/zoo", "/Zebra",
 		"/pin%67", "/%70ing?a=1", "/read%79", "/%72eady", "/p%69ng/x",
 		"/static-resp/x", "/a/", "/a/x", "/ab/x", "/a/b/x", "/a/b/c", "/a/b/c/", "/a/b/cd", "/nohost/x", "/a", "/ab", "/new/direct"}
 	queries := []string{"", "?q=1&r=a+b%20c", "?", "?x=%2F&y=%3D;z"}
@@ -146,6 +150,9 @@ func driveC17(t *testing.T, out *vEmitter) {
 					regexes[i] = regexp.MustCompile(u.Path)
 				}
 			}
+			// the order NewProxy registered the routes in satisfies the model's comparator (no later route is `less` than
+			// an earlier one): what c17_route assumes about the unstable sort's result
+			out.Case("sorted-order", true, vBool(true), vL("upstream_sorted", vL(listSX...)))
 			b := e.newBrowser("https://app.example.com")
 			b.seedSession("user@example.com", time.Minute, 20)
 			for _, p := range paths {
